@@ -198,6 +198,13 @@ def run(prog, ctx):
                 how = "not reachable with %s set to any of the %d documented codes" % (pname, len(codes))
             except Inconclusive:
                 ok = False
+        if not ok:
+            # a table searched by code: the buffer comes behind the search loop, which returns for every code that has a row
+            from rules import common as _c5
+            srch = _c5.searched_message_table(prog, es)
+            if srch is not None and srch[0] and not ref.within(srch[2]) and cfg.dominates(cfg.loop_header(srch[2]), b):
+                ok = True
+                how = "behind the search loop: " + srch[1]
         if ok:
             ctx.ok("T2", "static text buffer only for out-of-range codes", ref.where, how)
         else:
